@@ -53,13 +53,22 @@ Range(s) == {s[i] : i \in DOMAIN s}
 Merge(a, b) == [x \in DOMAIN a \cup DOMAIN b |-> IF x \in DOMAIN b THEN b[x] ELSE a[x]]
 Restrict(r, K) == [x \in DOMAIN r \cap K |-> r[x]]
 
+\* (recursions over long sequences split in halves: TLC evaluates recursion
+\* on the Java stack, and a ladder's sequence has hundreds of entries)
 RECURSIVE Asc(_)
 Asc(X) == IF X = {} THEN <<>>
           ELSE LET m == CHOOSE x \in X : \A y \in X : x <= y IN <<m>> \o Asc(X \ {m})
-RECURSIVE Flat(_, _)            \* F[1] \o ... \o F[n]
-Flat(F, n) == IF n = 0 THEN <<>> ELSE Flat(F, n - 1) \o F[n]
-RECURSIVE SumTo(_, _)
-SumTo(f, k) == IF k = 0 THEN 0 ELSE f[k] + SumTo(f, k - 1)
+RECURSIVE FlatR(_, _, _)
+FlatR(F, lo, hi) == IF lo > hi THEN <<>>
+                    ELSE IF lo = hi THEN F[lo]
+                    ELSE LET mid == (lo + hi) \div 2
+                         IN FlatR(F, lo, mid) \o FlatR(F, mid + 1, hi)
+Flat(F, n) == FlatR(F, 1, n)            \* F[1] \o ... \o F[n]
+RECURSIVE SumR(_, _, _)
+SumR(f, lo, hi) == IF lo > hi THEN 0
+                   ELSE IF lo = hi THEN f[lo]
+                   ELSE LET mid == (lo + hi) \div 2 IN SumR(f, lo, mid) + SumR(f, mid + 1, hi)
+SumTo(f, k) == SumR(f, 1, k)
 BagOfSeq(s) == [x \in Range(s) |-> Cardinality({i \in DOMAIN s : s[i] = x})]
 Count(b, x) == IF x \in DOMAIN b THEN b[x] ELSE 0
 
@@ -237,25 +246,30 @@ Entries(P, R, shown) ==
 
 \* classes of the combined sequence: free = cluster erased everywhere below;
 \* cls = with clusters (an "anyinst" edge looks at the free class of its source)
-RECURSIVE ClsUpTo(_, _, _)
+ClsStep(E, withOid, prev, k) ==
+  LET e == E[k]
+      oid == IF withOid THEN e.oid ELSE 0
+      kb0 == BagOfSeq([q \in DOMAIN e.kids |->
+                <<e.kids[q].lab, e.kids[q].style, prev.free[e.kids[q].to]>>])
+      kb1 == BagOfSeq([q \in DOMAIN e.kids |->
+                <<e.kids[q].lab, e.kids[q].style,
+                  IF e.kids[q].anyinst THEN prev.free[e.kids[q].to]
+                  ELSE prev.cls[e.kids[q].to]>>])
+      sig0 == <<e.lab, oid, kb0>>
+      sig1 == <<e.lab, e.cl, oid, kb1>>
+      same0 == {j \in 1..(k - 1) : prev.s0[j] = sig0}
+      same1 == {j \in 1..(k - 1) : prev.s1[j] = sig1}
+      first(X) == IF X = {} THEN k ELSE CHOOSE j \in X : \A z \in X : j <= z
+  IN [free |-> Append(prev.free, first(same0)), cls |-> Append(prev.cls, first(same1)),
+      s0 |-> Append(prev.s0, sig0), s1 |-> Append(prev.s1, sig1)]
+RECURSIVE ClsFold(_, _, _, _, _)
+ClsFold(E, withOid, acc, lo, hi) ==
+  IF lo > hi THEN acc
+  ELSE IF lo = hi THEN ClsStep(E, withOid, acc, lo)
+  ELSE LET mid == (lo + hi) \div 2
+       IN ClsFold(E, withOid, TLCEval(ClsFold(E, withOid, acc, lo, mid)), mid + 1, hi)
 ClsUpTo(E, withOid, k) ==
-  IF k = 0 THEN [free |-> <<>>, cls |-> <<>>, s0 |-> <<>>, s1 |-> <<>>]
-  ELSE LET prev == ClsUpTo(E, withOid, k - 1)
-           e == E[k]
-           oid == IF withOid THEN e.oid ELSE 0
-           kb0 == BagOfSeq([q \in DOMAIN e.kids |->
-                     <<e.kids[q].lab, e.kids[q].style, prev.free[e.kids[q].to]>>])
-           kb1 == BagOfSeq([q \in DOMAIN e.kids |->
-                     <<e.kids[q].lab, e.kids[q].style,
-                       IF e.kids[q].anyinst THEN prev.free[e.kids[q].to]
-                       ELSE prev.cls[e.kids[q].to]>>])
-           sig0 == <<e.lab, oid, kb0>>
-           sig1 == <<e.lab, e.cl, oid, kb1>>
-           same0 == {j \in 1..(k - 1) : prev.s0[j] = sig0}
-           same1 == {j \in 1..(k - 1) : prev.s1[j] = sig1}
-           first(X) == IF X = {} THEN k ELSE CHOOSE j \in X : \A z \in X : j <= z
-       IN [free |-> Append(prev.free, first(same0)), cls |-> Append(prev.cls, first(same1)),
-           s0 |-> Append(prev.s0, sig0), s1 |-> Append(prev.s1, sig1)]
+  ClsFold(E, withOid, [free |-> <<>>, cls |-> <<>>, s0 |-> <<>>, s1 |-> <<>>], 1, k)
 
 ClassBagsEqual(E, n, withOid) ==
   LET c == ClsUpTo(E, withOid, Len(E)).cls
@@ -300,9 +314,8 @@ FaithfulExplicit(P, R) ==
 (***************************************************************************)
 (* Diagnosis: the first failing level                                      *)
 (***************************************************************************)
-ClauseFor(S, R, mode) ==
-  LET P == Picture(S, mode)
-      n == Len(P)
+ClauseForP(P, R) ==
+  LET n == Len(P)
       rn == R.nodes
       shown == TLCEval(ShownKeys(R))
       pl == TLCEval([i \in 1..n |-> PLab(P[i], shown)])
@@ -354,6 +367,8 @@ ClauseFor(S, R, mode) ==
        THEN "node_declared_twice"
   ELSE IF \E r \in DOMAIN rn : rn[r].nstmt = 0 THEN "node_undeclared"
   ELSE "ok"
+
+ClauseFor(S, R, mode) == ClauseForP(Picture(S, mode), R)
 
 \* some mode fits; else the clause of the first mode (nothing MAY is drawn)
 RECURSIVE FirstOK(_, _, _)
